@@ -598,6 +598,29 @@ def field_ret_variants(d):
     return out
 
 
+def multi_ret_variants(d):
+    """the declaration asked for the 2nd (3rd ...) result of a provider with several results"""
+    out = []
+    if not accepts(d):
+        return out
+    k = 0
+    for p in d['providers']:
+        if p['kind'] != 'fn' or len(p['provides']) < 2:
+            continue
+        for g in p['provides'][1:]:
+            t = g[0]
+            if d['types'][t]['form'] == 'iface' or 'fields' in d['types'][t]:
+                continue
+            v = copy.deepcopy(d)
+            v['ret'] = t
+            v['id'] = '%sm%d' % (d['id'], k)
+            v['injector'] = 'Init_' + v['id']
+            k += 1
+            if accepts(v) and t in suppliers(v):
+                out.append(v)
+    return out
+
+
 def plant_orphan(d):
     if not accepts(d):
         return []
